@@ -15,7 +15,7 @@ class C02Check(C01Check):
     name = "c02-engine-sim"
     oracle_prefixes = ("ENGINE:input-uncovered", "ENGINE:pruned-feasible")
     rename = {"ENGINE:input-uncovered": "C02:input-uncovered", "ENGINE:pruned-feasible": "C02:pruned-feasible"}
-    rule = ("same generated worlds as C01 with the branching-solver `unknown` rate swept over 0 / 3% / 30% / 100% and --loop 1-4. "
+    rule = ("(an input contained only in paths that all end differently from the reference execution also counts as uncovered: `behaviour-in-no-path`) same generated worlds as C01 with the branching-solver `unknown` rate swept over 0 / 3% / 30% / 100% and --loop 1-4. "
             "Coverage oracle: every generated concrete input (boundary, random, constants harvested from the code +-1) on which "
             "the reference EVM terminates must satisfy the constraints of >=1 reported path (membership decided by concrete "
             "rewriting under real keccak / exact arithmetic, solver fallback), unless the exploration was flagged (loop bound "
